@@ -161,7 +161,13 @@ void mon_free_block(const void *addr, size_t size, const void *pc)
     access_bytes(addr, size, 1, 0, pc);          /* free conflicts with unordered accesses like a write */
     for (; a < end; a++) { Cell *c = cell_get(a & ~(uintptr_t)7, 1); c->poisoned |= (uint8_t)(1u << (a & 7)); }
 }
-void mon_fresh_block(const void *addr, size_t size) { (void)addr; (void)size; }
+/* memory handed to the code under test by the C library from its own heap (getaddrinfo results ...): the real allocator recycles such blocks between
+ * threads without the monitor seeing the free and the allocation, so what was recorded for the previous life of these addresses is forgotten */
+void mon_fresh_block(const void *addr, size_t size)
+{
+    uintptr_t a = (uintptr_t)addr & ~(uintptr_t)7, end = (uintptr_t)addr + size;
+    for (; a < end; a += 8) { Cell *c = cell_get(a, 0); if (c) { uintptr_t g = c->gran; memset(c, 0, sizeof *c); c->gran = g; } }
+}
 
 /* ------------------------------------------------------------------ per-address write epochs (spin detection) */
 typedef struct { uintptr_t a; unsigned long e; } WEp;
